@@ -62,6 +62,8 @@ type originRec struct {
 	ConnID  string
 	Gzip    bool   // the response was sent gzip-coded
 	RawBody []byte // body bytes as put on the wire (after content coding, before transfer coding)
+	Early    bool  // replied before reading the request body
+	BodyDone bool  // (Early) the whole request body arrived afterwards
 }
 
 type clientRec struct {
@@ -105,7 +107,20 @@ func (w *h1World) serveOrigin(node string, conn net.Conn, id string) {
 	defer conn.Close()
 	br := bufio.NewReaderSize(conn, 4096)
 	for {
-		m, err := h1.ReadRequest(br)
+		m, err := h1.ReadRequestHead(br)
+		early := false
+		if err == nil {
+			if mm := tokenRe.FindStringSubmatch(m.Target); mm != nil {
+				w.mu.Lock()
+				if e := w.ex[mm[1]]; e != nil && e.Resp.Early {
+					early = true
+				}
+				w.mu.Unlock()
+			}
+			if !early {
+				err = h1.ReadRequestBody(br, m)
+			}
+		}
 		if err != nil {
 			if m != nil && len(m.HeadRaw) > 0 {
 				w.mu.Lock()
@@ -118,7 +133,7 @@ func (w *h1World) serveOrigin(node string, conn net.Conn, id string) {
 		if mm := tokenRe.FindStringSubmatch(m.Target); mm != nil {
 			tok = mm[1]
 		}
-		rec := &originRec{Token: tok, Msg: m, Node: node, ConnID: id}
+		rec := &originRec{Token: tok, Msg: m, Node: node, ConnID: id, Early: early}
 		w.mu.Lock()
 		w.orig = append(w.orig, rec)
 		ex := w.ex[tok]
@@ -126,6 +141,21 @@ func (w *h1World) serveOrigin(node string, conn net.Conn, id string) {
 		if ex == nil {
 			conn.Write([]byte("HTTP/1.1 599 Unknown Token\r\nContent-Length: 0\r\nConnection: close\r\n\r\n"))
 			return
+		}
+		if early {
+			w.env.Probe("origin_replied_before_request_body")
+			if !w.writeResponse(conn, ex, rec) {
+				return
+			}
+			// now take the rest of the upload (the proxy may also give up on this connection: both are fine)
+			if err := h1.ReadRequestBody(br, m); err != nil {
+				return
+			}
+			rec.BodyDone = true
+			if ex.Resp.CloseAfter {
+				return
+			}
+			continue
 		}
 		if !w.writeResponse(conn, ex, rec) {
 			return
@@ -347,7 +377,17 @@ func (w *h1World) runClient(ci int, script *h1Conn, s *sut.SUT, mitmCA *x509.Cer
 			if i > 0 && !ex.Req.Pipeline {
 				<-gotResp[i-1]
 			}
-			if _, err := conn.Write(ex.Req.raw(w.scheme)); err != nil {
+			raw := ex.Req.raw(w.scheme)
+			if ex.Resp.Early {
+				hl := bytes.Index(raw, []byte("\r\n\r\n")) + 4
+				cut := hl + (len(raw)-hl)/2
+				if _, err := conn.Write(raw[:cut]); err != nil {
+					return
+				}
+				<-gotResp[i]
+				raw = raw[cut:]
+			}
+			if _, err := conn.Write(raw); err != nil {
 				return
 			}
 		}
@@ -487,6 +527,12 @@ func genH1Case(t *tape.Tape, tier, mode string) *h1Case {
 			ex.Resp = genResp(t, r.Method, richResp, last)
 			if r.Proto == "HTTP/1.0" && ex.Resp.BodyKind == "chunked" && !richResp {
 				ex.Resp.BodyKind = "cl"
+			}
+			if n := len(conn.Ex); n > 0 && conn.Ex[n-1].Resp.Early {
+				r.Pipeline = false // the previous exchange's client waits for its response in the middle of the upload
+			}
+			if r.BodyKind != "none" && r.BodyLen >= 2 && r.Proto == "HTTP/1.1" && !ex.Resp.SSE && len(ex.Resp.Pauses) == 0 && ex.Resp.BodyKind != "eof" && !ex.Resp.CloseAfter && t.Chance(1, 6) {
+				ex.Resp.Early = true
 			}
 			conn.Ex = append(conn.Ex, ex)
 			if ex.Resp.CloseAfter && ex.Resp.BodyKind == "eof" {
@@ -821,7 +867,16 @@ func (w *h1World) checkRequest(rec *clientRec, or *originRec, siteUser, sitePass
 	if hv := got.Get("Host"); len(hv) != 1 || hv[0] != req.Host {
 		env.Fail("req-host", f, "%s: Host %q became %q", tok, req.Host, hv)
 	}
-	if !bytes.Equal(got.Body, req.body()) {
+	if or.Early {
+		// the origin answered before the upload was complete; the proxy may stop forwarding the rest (it then gives up
+		// the upstream connection), but what did arrive must be a prefix of what the client sent
+		if !bytes.HasPrefix(req.body(), got.Body) {
+			env.Fail("req-body", f+"/"+req.BodyKind+"/early-reply", "%s: the %d body bytes that arrived are not a prefix of the %d bytes sent (first difference at %d)", tok, len(got.Body), len(req.body()), firstDiff(got.Body, req.body()))
+		}
+		if or.BodyDone {
+			env.Probe("upload_completed_after_early_reply")
+		}
+	} else if !bytes.Equal(got.Body, req.body()) {
 		env.Fail("req-body", f+"/"+req.BodyKind, "%s: body of %d bytes (%s) arrived as %d bytes (framing %s), first difference at %d", tok, len(req.body()), req.BodyKind, len(got.Body), got.Framing, firstDiff(got.Body, req.body()))
 	}
 	if req.BodyKind != "none" && req.BodyLen > 4096 {
